@@ -286,6 +286,9 @@ class ClassParser(BaseParser):
             self.resolve_forward_refs()
             context = self.options.make_context(_obj_self.__class__, force_error=True)
             value = field.parse_value(value, context=context)
+            if unprovided(value):
+                # excluded by the error policy of the field / the options (a warning was given): nothing is assigned
+                return
             _obj_self.__dict__[field.attname] = value
             if callable(post_setattr):
                 post_setattr(_obj_self, field, value, context)
